@@ -566,15 +566,15 @@ class FnCompiler:
     def apply(self, e, coqname, vals, kw, env):
         if coqname not in self.reg:
             self.fail(e, "callee %s not translated (yet)" % coqname)
-        params, ret, extra = self.reg[coqname]
+        params, ret, extra, dflts = self.reg[coqname]
         if extra:
             self.fail(e, "callee %s takes cos/sin parameters" % coqname)
         vals = list(vals)
         for (pn, pt) in params[len(vals):]:
             if pn in kw:
                 vals.append(self.ex(kw[pn], env))
-            elif pt == "K":
-                vals.append(Val("L2", "K"))         # default which="l2"
+            elif pn in dflts:
+                vals.append(dflts[pn])          # the callee's own default, as written in its def
             else:
                 self.fail(e, "missing argument %s of %s" % (pn, coqname))
         if len(vals) != len(params):
@@ -952,6 +952,18 @@ class FnCompiler:
                 self.fail(fn, "unmodelled extra parameters %s" % have[len(want):])
         def pn(p):
             return (p.strip("_") or "u") + "0"        # never clashes with a Coq type or a local (locals end in _<n>)
+        self.defaults = {}
+        dflt = param_defaults(fn)
+        for p, t in self.params:
+            if p in dflt:
+                d = dflt[p]
+                if t == "B" and isinstance(d, ast.Constant) and isinstance(d.value, bool):
+                    self.defaults[p] = Val("true" if d.value else "false", "B")
+                else:
+                    v = self.ex(d, {})
+                    if v.ty != t:
+                        self.fail(d, "default of %s has type %r, the model expects %r" % (p, v.ty, t))
+                    self.defaults[p] = v
         for p, t in self.params:
             env[p] = Val(pn(p), t)
             if t == "BOX" and p == "self":
@@ -962,6 +974,10 @@ class FnCompiler:
         params += "".join(" (%s : T)" % x for x in self.extra_params)
         # `let _ := o` : every generated definition takes (T, o) whether or not its body uses an operation
         text = "Definition %s %s : %s :=\n  let _ := o in\n  %s." % (self.coqname, params, coq_ty(self.ret), term)
+        for p, t in self.params:
+            if p in self.defaults:
+                text += "\n(* default of the parameter `%s` *)\nDefinition dflt_%s_%s : %s :=\n  let _ := o in\n  %s." % (
+                    p, self.coqname, p.strip("_"), coq_ty(t), self.defaults[p].coq)
         return text
 
 
@@ -1364,11 +1380,50 @@ def check_decorators(rel, fn):
                          "<name>.setter are understood)" % (dd or ast.dump(dco)[:40], fn.name))
 
 
-def collect_functions(rel, tree):
+WHITELISTED_DEFAULTS = {'Rotation.create_group("O")'}     # an immutable scipy object that is only iterated / multiplied
+
+
+def immutable_default(src, e):
+    """None / bool / number / string, -number, arithmetic on numbers and math.pi / np.pi"""
+    if isinstance(e, ast.Constant):
+        return e.value is None or isinstance(e.value, (bool, int, float, str))
+    if isinstance(e, ast.UnaryOp) and isinstance(e.op, (ast.USub, ast.UAdd)):
+        return immutable_default(src, e.operand)
+    if isinstance(e, ast.BinOp) and isinstance(e.op, (ast.Add, ast.Sub, ast.Mult, ast.Div)):
+        return immutable_default(src, e.left) and immutable_default(src, e.right)
+    if T.dotted(e) in ("math.pi", "np.pi", "pi"):
+        return True
+    return (ast.get_source_segment(src, e) or "").replace(" ", "") in {w.replace(" ", "") for w in WHITELISTED_DEFAULTS}
+
+
+def check_defaults(rel, src, fn):
+    """a default value is evaluated once and shared by every call: it must be immutable (fail closed otherwise)"""
+    a = fn.args
+    for e in list(a.defaults) + [d for d in a.kw_defaults if d is not None]:
+        if not immutable_default(src, e):
+            T.fail(rel, e, "default value `%s` of a parameter of %s is not an immutable constant (a mutable default is shared "
+                           "by all calls)" % ((ast.get_source_segment(src, e) or "?")[:40], fn.name))
+
+
+def param_defaults(fn):
+    """{parameter name: default expression}"""
+    a = fn.args
+    pos = a.posonlyargs + a.args
+    out = {}
+    for p_, d in zip(pos[len(pos) - len(a.defaults):], a.defaults):
+        out[p_.arg] = d
+    for p_, d in zip(a.kwonlyargs, a.kw_defaults):
+        if d is not None:
+            out[p_.arg] = d
+    return out
+
+
+def collect_functions(rel, tree, src=""):
     """[(qualname, FunctionDef, classname|None)] for every def in the file (methods, property setters)"""
     for n in ast.walk(tree):
         if isinstance(n, ast.FunctionDef):
             check_decorators(rel, n)
+            check_defaults(rel, src, n)
         elif isinstance(n, ast.ClassDef) and n.decorator_list:
             T.fail(rel, n, "class decorator on %s is outside the recognised subset" % n.name)
         elif isinstance(n, (ast.AsyncFunctionDef, ast.Global, ast.Nonlocal)):
@@ -1397,7 +1452,7 @@ def effects_table(sources):
     funs = []
     for rel in (F_VEC, F_GEO, F_ROT, F_MATH, F_AABB):
         src, tree = sources[rel]
-        for q, fn, cls in collect_functions(rel, tree):
+        for q, fn, cls in collect_functions(rel, tree, src):
             funs.append((rel, src, q, fn, cls))
     keys = [q for _, _, q, _, _ in funs]
     if len(set(keys)) != len(keys):
@@ -1436,7 +1491,7 @@ def gen():
         # properties / classmethods / staticmethods are compiled from their bodies all the same
         comp = FnCompiler(rel, src, fn, spec, registry)
         text = comp.compile()
-        registry[coqname] = (params, ret, list(comp.extra_params))
+        registry[coqname] = (params, ret, list(comp.extra_params), dict(comp.defaults))
         defs.append("(* %s:%d  %s *)\n%s" % (rel, fn.lineno, qual, text))
         parts.append(("%s %s" % (rel.split("/")[-1], qual), T.sha(src, fn)))
     rtext, rsha = roots_def(*sources[F_MATH])
